@@ -181,6 +181,17 @@ def _produce(ctx, case):
                 d = max((x for x in range(1, int(k ** 0.5) + 1) if k % x == 0), default=1) if k else 1
                 arg = np.array(ids, dtype=str).reshape((d, k // d)) if k else np.zeros((0, 0), dtype=str)
                 info["ids_shape"] = list(arg.shape)
+            if (len(ids) * 5 + rows + cols * 3) % 3 == 0 and not isinstance(arg, np.ndarray):
+                # the array handed out belongs to the caller: the same question was asked a moment ago and the
+                # answer edited in place (a well added, the rest cleared) - the next answer must not notice
+                try:
+                    first = evo_cmd.evo_make_selection_array(rows_arg, cols_arg, list(arg))
+                    if isinstance(first, np.ndarray) and first.size and first.flags.writeable:
+                        first[...] = 0
+                        first[rows - 1, cols - 1] = 1
+                        ctx.count("returned_selection_array_edited_before_asking_again")
+                except Exception:
+                    pass
             arr = evo_cmd.evo_make_selection_array(rows_arg, cols_arg, arg)
             want = _array(rows, cols, sel, float)
             ok = isinstance(arr, np.ndarray) and arr.shape == (rows, cols) and bool(np.array_equal(arr, want))
